@@ -131,7 +131,9 @@ def gen_source(rng, n, newline='\n'):
         elif r < 0.88:
             sep = rng.choice(['', ' ']) + newline + rng.choice(['', '\t', '  '])
         else:
-            sep = ' // ' + rng.choice(['c', '"x', "it's", 'é 0x', '']) + newline
+            sep = rng.choice([' // ', '//', ' //']) + rng.choice(['c', '"x', "it's", 'é 0x', '', '']) + newline
+        if src.endswith('/') and sep.startswith('/'):
+            sep = ' ' + sep      # `/` directly followed by `//` would itself start the comment
         if src or rng.random() < 0.5:
             src += sep
             line += sep.count('\n')
